@@ -74,9 +74,16 @@ def run_c(k2, dbdir, opts, ops, timeout=600):
     return r.returncode, r.stdout.decode('latin1'), r.stderr.decode('latin1')
 
 # ------------------------------------------------------------------ sorted-map cursor oracle (python)
+def ci_fold(b):
+    return bytes((c + 32) if 65 <= c <= 90 else c for c in b)
+
 def cmp_bytes(a, b, rev):
+    """rev: comparator kind 0 bytewise, 1 (or True) reverse bytewise, 2 ASCII case-insensitive"""
+    kind = int(rev)
+    if kind == 2:
+        a = ci_fold(a); b = ci_fold(b)
     r = (a > b) - (a < b)
-    return -r if rev else r
+    return -r if kind == 1 else r
 
 def script_oracle(view, script, rev, pos=None):
     """view: list of (key bytes, valtok) in comparator order. Returns (tokens, pos)."""
@@ -143,7 +150,7 @@ def max_seq(ents):
 def validate(calls, ops, opts, model_exe, res, keys_known, check_every_layout=True, max_problems=12):
     """Walk the trace, drive the model; fills res (K2Result)."""
     m = Model(model_exe)
-    rev = int(opts.get('comparator', 0)) == 1
+    rev = int(opts.get('comparator', 0))       # comparator kind (0 bytewise, 1 reverse, 2 case-insensitive)
     snaps = {}            # idx -> seq (live)
     iters = {}            # id -> (view list, pos)
     opened = False
@@ -152,7 +159,7 @@ def validate(calls, ops, opts, model_exe, res, keys_known, check_every_layout=Tr
     backups = {}          # C20: backup slot -> model view at the moment the backup was taken
     lk_open = False       # C20: the lock model (Lifecycle.v lk_step) has a handle open on the directory
     try:
-        m.ask('e_init %d' % (1 if rev else 0))
+        m.ask('e_init %d' % rev)
         m.ask('l_init')
         for call, opline in zip(calls, ops):
             res.stats['calls'] += 1
